@@ -652,6 +652,25 @@ pub fn drive_cmp(a: &Args, n_pairs: usize) {
             }
         }
     }
+    // IDENTICAL block hashes where only one pair of block hashes is compared, at the block sizes
+    // where the cap decides (and two above), for every length class up to 64: crossing (a's block
+    // hash 2 is b's block hash 1 at the doubled block size) and same-size with the other pair unrelated
+    for k in 0..=6u8 {
+        for &ln in &[7usize, 8, 12, 13, 16, 31, 32, 33, 40, 63, 64] {
+            for which in 0..3 {
+                sh.next_unit();
+                let sstr = rand_bh(&mut rng, ln, &full, 3);
+                let o1 = rand_bh(&mut rng, 9, &full, 3);
+                let o2 = rand_bh(&mut rng, 11, &full, 3);
+                let (x, y) = match which {
+                    0 => (H { k, a: o1, b: sstr.clone() }, H { k: k + 1, a: sstr.clone(), b: o2 }),
+                    1 => (H { k, a: sstr.clone(), b: o1 }, H { k, a: sstr.clone(), b: o2 }),
+                    _ => (H { k, a: o1, b: sstr.clone() }, H { k, a: o2, b: sstr.clone() }),
+                };
+                ev_cmp(&mut sh, &mut reuse, &x, &y);
+            }
+        }
+    }
     // mixed widths, systematically: one hash with a block hash 2 of 33..64 symbols (long forms only),
     // the other with at most 32 (fits the short forms) that is a slice of it -- at the start, across
     // position 32, in the middle of the upper half and at the very end -- with a few edits; block
